@@ -420,3 +420,131 @@ def translate_auc(repo):
             "Definition side_eqb (a b : side) : bool := match a, b with SLeft, SLeft | SRight, SRight => true | _, _ => false end.\n"
             "Section Gen.\nVariable succ pred : Q -> Q.\n"
             f"Definition gen_auc (s : scores) (lower upper : Q) (x_axis y_axis : axis) : Q :=\n  {body}.\nEnd Gen.\n")
+
+
+# ------------------------------------------------------------------ eer / _find_root
+FIND_ROOT_BODY = """if not f(xa) <= 0 <= f(xe):
+    raise ValueError(f'f({xa}) <= 0 <= f({xe}) not satisfied.')
+while not np.abs(xa - xe) < xtol:
+    xm = (xa + xe) / 2
+    if f(xm) < 0:
+        xa = xm
+    elif f(xm) > 0:
+        xe = xm
+    elif find_first:
+        xe = xm
+    else:
+        xa = xm
+return (xa + xe) / 2"""
+
+
+def c_tfpr(tr, e):
+    if len(e.args) != 1 or e.keywords:
+        raise Reject("threshold_at_fpr call shape inside eer")
+    return (f"(t_fpr succ pred s {tr.coerce(tr.expr(e.args[0]), 'Q')})", "Q")
+
+
+def c_tfnr(tr, e):
+    if len(e.args) != 1 or e.keywords:
+        raise Reject("threshold_at_fnr call shape inside eer")
+    return (f"(t_fnr succ pred s {tr.coerce(tr.expr(e.args[0]), 'Q')})", "Q")
+
+
+def c_sign(tr, e):
+    return (f"(Qsgn {tr.coerce(tr.expr(e.args[0]), 'Q')})", "Q")
+
+
+def c_min2(tr, e):
+    if len(e.args) != 2:
+        raise Reject("min arity")
+    a, b = (tr.coerce(tr.expr(x), "Q") for x in e.args)
+    return (f"(Qmin2 {a} {b})", "Q")
+
+
+def c_isclose(tr, e):
+    if len(e.args) != 2 or e.keywords:
+        raise Reject("np.isclose with tolerances")
+    a, b = (tr.coerce(tr.expr(x), "Q") for x in e.args)
+    return (f"(isclose {a} {b})", "B")
+
+
+def c_local_f(tr, e):
+    if tr.env.get("f", (None, None))[1] != "FUN" or len(e.args) != 1:
+        raise Reject("call of f")
+    return (f"(f {tr.coerce(tr.expr(e.args[0]), 'Q')})", "Q")
+
+
+class EerTr(AucTr):
+    def expr(self, e):
+        # self.pos[0], self.neg[-1]
+        if isinstance(e, ast.Subscript) and isinstance(e.value, ast.Attribute) and ast.unparse(e.value) in ("self.pos", "self.neg"):
+            base = self.self_fields[e.value.attr][0]
+            idx = ast.unparse(e.slice)
+            if idx == "0":
+                return (f"(nthZ {base} 0)", "Q")
+            if idx == "-1":
+                return (f"(nthZ {base} (len {base} - 1))", "Q")
+            raise Reject("index " + idx)
+        # (a + b) / 2  ->  norm ((a + b) / 2)   (midpoints are kept in lowest terms; norm x == x)
+        if (isinstance(e, ast.BinOp) and isinstance(e.op, ast.Div) and isinstance(e.right, ast.Constant) and e.right.value == 2
+                and isinstance(e.left, ast.BinOp) and isinstance(e.left.op, ast.Add)):
+            a, b = self.coerce(self.expr(e.left.left), "Q"), self.coerce(self.expr(e.left.right), "Q")
+            return (f"(norm (({a} + {b}) / 2))", "Q")
+        return super().expr(e)
+
+    def special_stmt(self, s):
+        # nested helper: def f(x): y = A; y = sign * y; return y
+        if isinstance(s, ast.FunctionDef) and s.name == "f":
+            if [a.arg for a in s.args.args] != ["x"]:
+                raise Reject("signature of nested f")
+            sub = EerTr(env=dict(self.env, x=("x", "Q")), self_fields=self.self_fields, self_props=self.self_props, calls=self.calls)
+            body = sub.block(strip_doc(s.body))
+            self.env["f"] = ("f", "FUN")
+            return f"let f := (fun x : Q => {body}) in"
+        return super().special_stmt(s)
+
+    def block(self, stmts):
+        # left = self._find_root(f, 0.0, max_eer, find_first=True)  -> bind on the result
+        if stmts and isinstance(stmts[0], ast.Assign) and isinstance(stmts[0].value, ast.Call) and \
+                ast.unparse(stmts[0].value.func) == "self._find_root":
+            s = stmts[0]
+            c = s.value
+            if len(c.args) != 3 or ast.unparse(c.args[0]) != "f" or [k.arg for k in c.keywords] != ["find_first"]:
+                raise Reject("_find_root call shape")
+            xa, xe = (self.coerce(self.expr(a), "Q") for a in c.args[1:])
+            ff = self.coerce(self.expr(c.keywords[0].value), "B")
+            name = s.targets[0].id
+            var = name + "_root"      # `left`/`right` are constructors in Coq
+            self.env[name] = (var, "Q")
+            return (f"(match find_root fuel f {xa} {xe} {ff} xtol_default with\n  | Ret {var} => {self.block(stmts[1:])}\n  | Raise => Raise end)")
+        return super().block(stmts)
+
+
+def _ret_pair(tr, v):
+    if not (isinstance(v[1], tuple) and v[1][0] == "T" and len(v[1][1]) == 2):
+        raise Reject("eer must return a pair")
+    return f"(Ret {v[0]})"
+
+
+def translate_eer(repo):
+    path = os.path.join(repo, "score_analysis", "scores.py")
+    tree = ast.parse(open(path).read())
+    fr = find_function(tree, "_find_root", cls="Scores")
+    if [a.arg for a in fr.args.args] != ["f", "xa", "xe", "find_first", "xtol"] or [ast.unparse(d) for d in fr.args.defaults] != ["1e-10"]:
+        raise Reject("_find_root signature")
+    got = "\n".join(ast.unparse(st) for st in strip_doc(fr.body))
+    if got != FIND_ROOT_BODY:
+        raise Reject("_find_root body differs from the modelled loop:\n" + got)
+    fn = find_function(tree, "eer", cls="Scores")
+    if [a.arg for a in fn.args.args] != ["self"]:
+        raise Reject("eer signature")
+    calls = dict(THR_CALLS)
+    calls.update({"self.threshold_at_fpr": c_tfpr, "self.threshold_at_fnr": c_tfnr, "np.sign": c_sign, "min": c_min2,
+                  "np.isclose": c_isclose, "f": c_local_f})
+    props = {"hard_pos_ratio": ("(hard_pos_ratio s)", "Q"), "hard_neg_ratio": ("(hard_neg_ratio s)", "Q")}
+    tr = EerTr(env={}, self_fields=SELF_FIELDS, self_props=props, calls=calls, ret_wrap=_ret_pair)
+    body = tr.block(strip_doc(fn.body))
+    return (HEADER.format(src="Scores.eer / Scores._find_root").replace("Model.Scores", "Model.Eer") +
+            "Section Gen.\nVariable succ pred : Q -> Q.\nVariable fuel : nat.\n"
+            f"Definition gen_eer (s : scores) : res (Q * Q) :=\n  {body}.\nEnd Gen.\n"
+            "Definition gen_find_root_loop_is_the_modelled_one : bool := true.\n")
